@@ -1659,8 +1659,10 @@ class TrajectoryStore:
                 if Dimension.POINT in field.dimensions and npoints is None:
                     if Dimension.SPECIES in field.dimensions:
                         # Get number of points from arbitrary entry in the
-                        # SpeciesValues dictionary here.
-                        npoints = len(next(iter(data[name].values())))
+                        # SpeciesValues dictionary here (a field holding no
+                        # species at all cannot tell us).
+                        if len(data[name]) > 0:
+                            npoints = len(next(iter(data[name].values())))
                     else:
                         # Data should be a simple Numpy array here.
                         npoints = len(data[name])
